@@ -68,7 +68,9 @@ def side_effect_clause(cl, rng, n, replay):
         recs = [rp.mk_record(*r, degrees_from_north=float(rng.choice([0., 20.])), meta={"file name(s)": ["a.mseed", "b.mseed"], "tag": {"k": [1, 2]}}) for r in raws]
         width = float(rng.choice([0.1, 0.3, 1.0]))
         azs = [None, np.array([0., 90.]), np.array([0., 35., 90., 140.]), np.array([20., 65.])][j % 4]
-        s = mk_settings(kind, width, azs=azs, policy=policy)
+        # FFT length: left to the library, or given by the user - below, at and above the power of two the library would pick (even values: the PSD code's domain)
+        fft = [None, dict(n=40000), None, dict(n=32768), dict(n=65536), dict(n=1000), dict(n=98304)][(j // 3) % 7]
+        s = mk_settings(kind, width, fft=(dict(fft) if fft is not None else None), azs=azs, policy=policy)
         snaps = [rp.snapshot_record(r) for r in recs]
         ids = [id(r) for r in recs]
         try:
@@ -76,14 +78,15 @@ def side_effect_clause(cl, rng, n, replay):
         except Exception as ex:
             cl.fail(f"hvsrpy.processing.process[{kind}]", f"{type(ex).__name__}: {ex}", signature="c09:exception")
             return
-        cl.case((j, kind, L, N, width, policy))
+        cl.case((j, kind, L, N, width, policy, repr(fft)))
         if [id(r) for r in recs] != ids or any(not rp.same_snapshot(a, rp.snapshot_record(r)) for a, r in zip(snaps, recs)):
             cl.fail(f"hvsrpy.processing.process[{kind}]", "process() changed the recordings it was given (samples, time step, orientation or metadata)"
                     + (f" [mixed time steps, {policy}]" if policy else ""), signature=f"c09:frame:{kind}", azimuths=azs, policy=policy)
             return
         v1, m1 = values(r1).copy(), meta_of(r1)
         r2 = hvsrpy.process(recs, s)
-        if not np.array_equal(values(r2), v1):
+        r3 = hvsrpy.process(recs, s) if fft is not None else r2
+        if not (np.array_equal(values(r2), v1) and np.array_equal(values(r3), v1) and meta_of(r2) == m1 and meta_of(r3) == m1):
             cl.fail(f"hvsrpy.processing.process[{kind}]", "the same processing on the same recordings with the same settings object returned a different result",
                     signature=f"c09:repeat:{kind}", azimuths=azs)
             return
